@@ -77,6 +77,17 @@ func setup(it *hz.Item) (ctx any, err error) {
 }
 
 func main() {
+	if v := os.Getenv("VERIF_PAR_LOOPS"); v != "" {
+		n := 0
+		for _, ch := range v {
+			if ch >= '0' && ch <= '9' {
+				n = n*10 + int(ch-'0')
+			}
+		}
+		if n > 0 {
+			verif.ParLoops = n
+		}
+	}
 	in := bufio.NewReaderSize(os.Stdin, 1<<24)
 	out := bufio.NewWriter(os.Stdout)
 	defer out.Flush()
